@@ -14,7 +14,7 @@ THEOREMS = ["Gozod.C19." + t for t in [
     "c19_tree_count", "c19_tree_place",
     "formatError_eq", "c19_format_count_partial", "c19_format_count_full_false",
     "c19_format_place_partial", "c19_format_place_full_false",
-    "c19_prettify_count", "c19_prettify_place", "c19_dotpath_injective_full_false", "dotpath_empty_key",
+    "c19_prettify_count", "c19_prettify_place", "c19_dotpath_injective_partial", "c19_dotpath_injective_full_false", "dotpath_empty_key",
     "c19_nonempty", "c19_nonempty_format_full_false",
     "legacy_format_drops_union", "legacy_format_drops_element", "legacy_format_drops_unknown_code",
     "legacy_format_misfiles_nested", "legacy_dotpath_conflates", "legacy_nonempty_false",
